@@ -18,7 +18,7 @@ pub const REQUIRED: &[&str] = &[
     "arm.dispatch[sse2].protein.c32", "arm.dispatch[avx2].protein.c32",
     "arm.generic.dna.c16", "arm.sse2.dna.c16", "arm.generic.protein.c16", "arm.sse2.protein.c16",
     "dispatch_forced.generic", "dispatch_forced.sse2", "dispatch_forced.avx2",
-    "class.L<M", "class.L=M", "class.rows>32", "class.reconfigured_for_wider_motif", "class.wrap_exceeds_motif", "class.values_fill_last_column", "class.reused_buffer_same_rows", "class.wildcard_in_window", "class.neg_inf_score",
+    "class.L<M", "class.L=M", "class.rows>32", "class.rows>1024", "class.reconfigured_for_wider_motif", "class.wrap_exceeds_motif", "class.values_fill_last_column", "class.reused_buffer_same_rows", "class.wildcard_in_window", "class.neg_inf_score",
     "subrange.empty", "subrange.last_row", "subrange.inner",
     "score_position.no_lookahead_rows", "score_position.too_few_lookahead_rows", "score_position.enough_lookahead_rows", "score_position.window_crosses_column",
 ];
@@ -50,7 +50,14 @@ fn make_input(case: u64, rng: &mut Rng, cfg: &Config, protein: bool) -> Input {
     } else {
         let m = if rng.chance(0.5) { *rng.pick(&WIDTHS) } else { rng.range(1, 64) };
         let maxl = if cfg.thorough() && rng.chance(0.05) { 40_000 } else { 4_000 };
-        let l = if rng.chance(0.15) { rng.range(0, 80) } else { rng.range(0, maxl) };
+        let l = if rng.chance(0.02) {
+            // more than 1024 striped rows in one call (32 and 16 columns)
+            rng.range(32_800, 36_000)
+        } else if rng.chance(0.15) {
+            rng.range(0, 80)
+        } else {
+            rng.range(0, maxl)
+        };
         (l, m)
     };
     let mk = *rng.pick(&MAT_KINDS);
@@ -288,6 +295,9 @@ fn run_alpha<A: Alphabet>(case: u64, rng: &mut Rng, rep: &mut Report, inp: &Inpu
         }
         if r_rows > 256 {
             rep.cover("class.rows>256");
+        }
+        if r_rows > 1024 {
+            rep.cover("class.rows>1024");
         }
         // sub-ranges to exercise
         let mut ranges: Vec<(usize, usize, &'static str)> = Vec::new();
